@@ -115,3 +115,24 @@ def judge(chk, event_files, ids=("C04", "C08"), n=16):
 def witness(d):
     det = d.get("detail") or {}
     return "%s|%s|%s" % (d.get("what"), det.get("fen"), det.get("tag"))
+
+
+def explosive_positions():
+    """Legal positions whose depth-1 search already costs more than one polling interval (quiescence explosion):
+    a stop can be observed before any root move has been scored."""
+    return [fen2pos(l.strip()) for l in open(os.path.join(vlib.VERIF, "data", "explosive.txt")) if l.strip()]
+
+
+def draw_positions(chk, shards, density, nshards=8):
+    """Gen_Draws: positions whose best line ends in an immediately recognised draw."""
+    def one(sh):
+        cfg = os.path.join(chk.outdir, "gd_%d.cfg" % sh)
+        games.gen_cfg(cfg, {"SHARD": sh, "NSHARDS": nshards, "DENSITY": density}, "INIT Init\nNEXT Next\n")
+        r = vlib.tlc("Gen_Draws", cfg=cfg, timeout=3000, xmx="2g")
+        if r.error:
+            raise vlib.ToolError("Gen_Draws: " + r.error)
+        return [d for t, d in r.reports if t == "GEN"]
+    out = []
+    for g in vlib.pmap(one, shards, n=len(shards)):
+        out += g
+    return out
